@@ -26,7 +26,8 @@
 EXTENDS Integers, Sequences, FiniteSets
 
 CONSTANTS DefNaNCompare,   \* F-08: NaN-unsafe comparisons in change_point / add_new_sample / save_point / get_final_results
-          DefSwapNs        \* F-17: swap_points does not swap the sample counts
+          DefSwapNs,       \* F-17: swap_points does not swap the sample counts
+          DefStaleFactor   \* F-31: add_new_sample moves the best point without invalidating the cached factorisation (which is built around it)
 
 NaN == -999999
 IsNaN(a) == a = NaN
@@ -61,12 +62,14 @@ ArgMinRule(s, kold) ==
 \* model.add_new_sample(k, rvec_extra): vnew is the objective of the new mean (environment input)
 AddSampleM(m, k, vnew) ==
   LET post == [m.slots EXCEPT ![k] = Slot(m.slots[k].en, m.slots[k].ns + 1, vnew)]
-  IN  [m EXCEPT !.slots = post, !.kopt = ArgMinRule(post, m.kopt)]
+      knew == ArgMinRule(post, m.kopt)
+  IN  [m EXCEPT !.slots = post, !.kopt = knew, !.fc = IF knew # m.kopt /\ ~DefStaleFactor THEN FALSE ELSE m.fc]
 
 \* n-1 further samples added in one step (the mean's objective vnew is an environment input)
 AddSampleN(m, k, vnew, n) ==
   LET post == [m.slots EXCEPT ![k] = Slot(m.slots[k].en, n, vnew)]
-  IN  [m EXCEPT !.slots = post, !.kopt = ArgMinRule(post, m.kopt)]
+      knew == ArgMinRule(post, m.kopt)
+  IN  [m EXCEPT !.slots = post, !.kopt = knew, !.fc = IF knew # m.kopt /\ ~DefStaleFactor THEN FALSE ELSE m.fc]
 
 \* model.add_new_point(x, rvec, eval_num)  (soft restarts with increasing npt)
 AddPointM(m, v, en) ==
